@@ -33,15 +33,16 @@ type propInfo struct {
 }
 
 type nodeMon struct {
-	prev      *raft.VerifDump
-	startTerm uint64
-	lastRdHS  *pb.HardState
-	nextApply uint64
-	prevState raft.StateType
-	prevTerm  uint64
-	preGrants map[uint64]bool
-	leadSince int
-	viewFirst uint64 // C09: first index of the logical log, per incarnation
+	prev        *raft.VerifDump
+	startTerm   uint64
+	lastRdHS    *pb.HardState
+	nextApply   uint64
+	prevState   raft.StateType
+	prevTerm    uint64
+	preGrants   map[uint64]bool
+	leadSince   int
+	viewFirst   uint64            // C09: first index of the logical log, per incarnation
+	exposedVote map[uint64]uint64 // C07: term -> vote of the hard states exposed (or loaded at start)
 	// C17 (CheckQuorum): ticks of this node, and for the current leadership the tick at which
 	// each peer was last heard from
 	ticks     int
@@ -194,6 +195,12 @@ func (m *Monitors) onStart(n *Node) {
 	x.viewFirst = 0
 	hs, _, _ := n.st.InitialState()
 	x.lastRdHS = hs
+	if x.exposedVote == nil {
+		x.exposedVote = map[uint64]uint64{}
+	}
+	if hs != nil && hs.GetVote() != 0 {
+		x.exposedVote[hs.GetTerm()] = hs.GetVote()
+	}
 	snap, _ := n.st.Snapshot()
 	x.nextApply = snap.GetMetadata().GetIndex() + 1
 	// C07: the new incarnation continues from exactly the last persisted hard state
@@ -217,6 +224,9 @@ func (m *Monitors) onReady(n *Node, rd *raft.Ready) {
 			m.checkHS("exposed", n, p, rd.HardState)
 		}
 		x.lastRdHS = rd.HardState
+		if rd.HardState.GetVote() != 0 {
+			x.exposedVote[rd.HardState.GetTerm()] = rd.HardState.GetVote()
+		}
 		if c := rd.HardState.GetCommit(); c > m.maxReported {
 			m.maxReported = c
 		}
@@ -450,6 +460,12 @@ func (m *Monitors) onSend(n *Node, msg *pb.Message) {
 			m.report("C02", "", "node %d granted its vote in term %d to %d and to %d", n.id, msg.GetTerm(), c, msg.GetTo())
 		}
 		m.votes[k] = msg.GetTo()
+		// C07: the vote that is granted has been exposed in a hard state of this node
+		m.hit("C07.grant-vs-exposed-hardstate")
+		// (a node that has meanwhile exposed a higher term can no longer vote in this one)
+		if x.exposedVote[msg.GetTerm()] != msg.GetTo() && !(x.lastRdHS != nil && x.lastRdHS.GetTerm() > msg.GetTerm()) {
+			m.report("C07", "", "node %d granted its vote to %d in term %d but never exposed a hard state with that vote (exposed for that term: vote %d)", n.id, msg.GetTo(), msg.GetTerm(), x.exposedVote[msg.GetTerm()])
+		}
 		// C05/C02: the vote is durable before the grant is visible
 		if hs.GetTerm() < msg.GetTerm() || (hs.GetTerm() == msg.GetTerm() && hs.GetVote() != msg.GetTo()) {
 			m.report("C05", "", "node %d released a vote for %d in term %d while its durable hard state is %s", n.id, msg.GetTo(), msg.GetTerm(), enc.HardState(hs))
